@@ -349,6 +349,14 @@ def _replay_illformed(item, term, sent, text, sql, err: SP.SqlIllFormed, out: di
                        "wrongly on real sqlite3")
         out["witness"] = differing
         return
+    if err.kind == "bare-word":
+        # SQLite simplifies `0 AND <expr>` / `<expr> AND 0` at parse time, before names are resolved, so a clause with
+        # an unresolvable bare word (e.g. the text None) can still execute - and then selects the right rows.  Not
+        # decidable by the model and not a demonstrable C01 failure; C09 reports the placeholder text itself.
+        out["status"] = "outside"
+        out["why"] = ("ill-formed (bare word) but sqlite3 executes it via constant folding and agrees with the "
+                      "reference on the boundary rows")
+        return
     out["status"] = "harness_error"
     out["why"] = (f"independent parser rejects text that sqlite3 executes and that agrees with the reference on the "
                   f"boundary rows: {err.kind}: {err}: {csql!r}")
@@ -358,8 +366,7 @@ def _replay_illformed(item, term, sent, text, sql, err: SP.SqlIllFormed, out: di
 def replay_known_witness(w: dict) -> Tuple[bool, str]:
     """Does the recorded witness {term, row} still fail on the live code?  -> (still_fails, description)"""
     term = _retuple(w["term"])
-    row = dict(w["row"])
-    row.setdefault("id", 1)
+    row = dict(NEUTRAL_ROW, **w["row"])
     text = G.to_text(term)
     st, sql = real_sql(text, "sqlite")
     if st != "ok":
